@@ -241,7 +241,7 @@ def units():
     # readers): the table's `set` and the driver loop are under the contracts of C14
     return [FunctionUnit(KimContract(m)) for m in simple] + [FunctionUnit(MapSum()), FunctionUnit(MapProductLike())] \
         + [FilteredUnit(u, lambda name: "/lemma/" not in name and "/probe[" not in name) for u in c14.table_units()] \
-        + finder.units() + builtins.units() + __import__('contracts.c09call', fromlist=['units']).units() + __import__('contracts.c09rhs', fromlist=['units']).units()
+        + finder.units() + builtins.units() + __import__('contracts.c09call', fromlist=['units']).units() + __import__('contracts.c09rhs', fromlist=['units']).units() + __import__('contracts.c09infer', fromlist=['units']).units()
 
 
 def concretize(obligation_name, model_text):
